@@ -109,6 +109,16 @@ def variants(seed, switches=frozenset()):
         specs.append({"fmt": "max", "mode": m, "pattern": "ramp", "seed": seed, "rows": 8})  # 256 columns: 256 bytes
         specs.append({"fmt": "max", "mode": m, "pattern": "ramp", "seed": seed + 1, "newsroom": True, "cols": 64, "rows": 32})
         specs.append({"fmt": "max", "mode": m, "pattern": "ramp", "seed": seed + 2, "cols": 128, "rows": 16})
+    # MAX length fields at and beyond 0x8000 (the height is derived from the 16-bit length)
+    specs.append({"fmt": "max", "mode": "bw", "pattern": "runs", "seed": seed, "cols": 256, "rows": 1024})
+    specs.append({"fmt": "max", "mode": "br2", "pattern": "runs", "seed": seed, "cols": 512, "rows": 1000})
+    for t in (0, 1, 3):
+        for band in (1, 7, 8, 9, 16):
+            specs.append({"fmt": "vef", "type": t, "squashed": False, "pattern": "blank_top_%d" % band, "seed": seed + t, "palette": [(3 * i + seed) % 64 for i in range(16)]})
+        specs.append({"fmt": "vef", "type": t, "squashed": False, "pattern": "blank_bottom_8", "seed": seed + t + 5, "palette": [(3 * i + seed) % 64 for i in range(16)]})
+    for f_ in ("mge", "cm3", "hrs"):
+        specs.append(dict({"fmt": f_, "pattern": "blank_top_8", "seed": seed, "palette": [(3 * i + seed) % 64 for i in range(16)]},
+                          **({"compressed": False, "composite": False} if f_ == "mge" else {"coded": False} if f_ == "cm3" else {})))
     for comp in (False, True):
         specs.append({"fmt": "mge", "composite": comp, "compressed": False, "pattern": "ramp", "seed": seed, "palette": [(5 * i + seed) % 64 for i in range(16)]})
     for two in (False, True):
